@@ -12,6 +12,7 @@ from .envctl import MachineryError
 THR = {'t0': 0, 't1': 1, 'tsmall': 100, 't32k': 2 ** 15}
 ACCESSORS = ['get', 'getitem', 'pop', 'read', 'pull', 'peek', 'peekitem', 'deque-getitem', 'deque-pop', 'index-getitem', 'index-pop',
              'get-unpickled', 'pull-unpickled']
+INCR_ACC = ['incr-within', 'incr-across', 'decr-across']      # for kind int64 only
 FEATCH = {'CR': '\r', 'LF': '\n', 'CRLF': '\r\n', 'NUL': '\x00', 'U85': '\x85', 'U2028': ' ', 'astral': '\U0001f600',
           'surrogate': '\ud800', 'BOM': '\ufeff'}
 
@@ -141,6 +142,41 @@ def run_config(thr, disk, protocol, cases, seed=0, tid=1):
             if disk == 'JSONDisk' and kind == 'bytes':
                 if acc == 'read':
                     continue
+            if acc in INCR_ACC:
+                if kind != 'int64':
+                    continue
+                # integers at the edges of the signed 64-bit range (and ordinary ones for incr-within)
+                r_ = rng.randrange(6)
+                if acc == 'incr-within':
+                    base = rng.choice([value if abs(value) < 2 ** 62 else 12345, 2 ** 63 - 1 - r_ - 5, -2 ** 63 + r_, 2 ** 31 - 1, 2 ** 53])
+                    delta = rng.choice([1, r_ + 1, -1, -r_]) if abs(base) < 2 ** 62 else (rng.randrange(1, 5) if base > 0 else -rng.randrange(0, r_ + 1))
+                elif acc == 'incr-across':
+                    base, delta = 2 ** 63 - 1 - r_, r_ + rng.choice([1, 2, 1000, 2 ** 40])
+                else:
+                    base, delta = -2 ** 63 + r_, r_ + rng.choice([1, 2, 1000, 2 ** 40])
+                exact = base - delta if acc == 'decr-across' else base + delta
+                try:
+                    cache.clear()
+                    cache['k'] = base
+                    raised = ''
+                    try:
+                        ret = cache.decr('k', delta) if acc == 'decr-across' else cache.incr('k', delta)
+                    except Exception as exc:
+                        raised = type(exc).__name__
+                    got = cache.get('k', default='<missing>')
+                    if raised:
+                        outcome = 'rejected' if same(got, base) else 'altered'
+                        detail = raised if outcome == 'rejected' else '%s raised and the stored %d became %r' % (raised, base, got)
+                    elif same(ret, exact) and same(got, exact):
+                        outcome = 'same'
+                    else:
+                        outcome = 'altered'
+                        detail = '%d %+d returned %r, stored %r' % (base, -delta if acc == 'decr-across' else delta, ret, got)
+                except Exception as exc:
+                    outcome, detail = 'fetch-error', type(exc).__name__
+                ev.append({'kind': kind, 'len': lenclass, 'feat': sorted(feat), 'thr': thr, 'disk': disk, 'acc': acc,
+                           'proto': protocol, 'outcome': outcome, 'detail': detail})
+                continue
             phase = 'store'
             try:
                 cache.clear(); dq.clear(); ix.clear()
